@@ -27,6 +27,7 @@ struct Plan {
     framing: String, // cl | chunked | close
     frames: Vec<usize>,
     delay_ms: u64,
+    gap_ms: u64, // pause between two frames of the response body (a slowly streaming host)
 }
 
 static PLANS: Lazy<Mutex<HashMap<String, Plan>>> = Lazy::new(|| Mutex::new(HashMap::new()));
@@ -281,6 +282,7 @@ fn host_conn(name: String, mut s: TcpStream) {
                     framing: "cl".to_string(),
                     frames: vec![],
                     delay_ms: 0,
+                    gap_ms: 2,
                 });
                 if plan.delay_ms > 0 {
                     std::thread::sleep(Duration::from_millis(plan.delay_ms));
@@ -300,7 +302,7 @@ fn host_conn(name: String, mut s: TcpStream) {
                     }
                     "chunked" => {
                         head_bytes.extend_from_slice(b"transfer-encoding: chunked\r\n\r\n");
-                        s.write_all(&head_bytes).and_then(|_| write_chunked(&mut s, &plan.body, &plan.frames, 2))
+                        s.write_all(&head_bytes).and_then(|_| write_chunked(&mut s, &plan.body, &plan.frames, plan.gap_ms))
                     }
                     "close" => {
                         head_bytes.extend_from_slice(b"connection: close\r\n\r\n");
@@ -325,7 +327,7 @@ fn host_conn(name: String, mut s: TcpStream) {
                             if r.is_ok() && n > 0 {
                                 r = s.write_all(&plan.body[off..off + n]).and_then(|_| s.flush());
                                 off += n;
-                                std::thread::sleep(Duration::from_millis(2));
+                                std::thread::sleep(Duration::from_millis(plan.gap_ms));
                             }
                         }
                         if r.is_ok() && off < plan.body.len() {
@@ -613,6 +615,14 @@ impl Rig {
                         },
                     );
                 }
+                if let Some(n) = st["rcvbuf"].as_u64() {
+                    // a client with a small receive buffer (set before connect so that the window is small from the start)
+                    use std::os::fd::AsRawFd;
+                    let v: libc::c_int = n as libc::c_int;
+                    unsafe {
+                        libc::setsockopt(s.as_raw_fd(), libc::SOL_SOCKET, libc::SO_RCVBUF, &v as *const _ as *const libc::c_void, 4);
+                    }
+                }
                 let lookups_before = verif::audit::lookups(port);
                 if let Err(e) = client_connect(&s, self.proxy_addr) {
                     verif::trace::emit(json!({"e": "ConnectError", "conn": conn, "err": e}));
@@ -665,6 +675,7 @@ impl Rig {
                             framing: r["framing"].as_str().unwrap_or("cl").to_string(),
                             frames: usizes_of(r.get("frames")),
                             delay_ms: r["delay_ms"].as_u64().unwrap_or(0),
+                            gap_ms: r["gap_ms"].as_u64().unwrap_or(2),
                         },
                     );
                 }
@@ -711,6 +722,9 @@ impl Rig {
                     return;
                 }
                 // a write error is not final: the proxy may have answered (e.g. 413) and closed while we were sending
+                if let Some(ms) = st["read_delay_ms"].as_u64() {
+                    std::thread::sleep(Duration::from_millis(ms)); // a client that starts reading late
+                }
                 recv_one(&conn, &id, &mut g, send_err);
             }
             "send_partial" => {
@@ -897,6 +911,7 @@ impl Rig {
                         framing: r["framing"].as_str().unwrap_or("cl").to_string(),
                         frames: usizes_of(r.get("frames")),
                         delay_ms: r["delay_ms"].as_u64().unwrap_or(0),
+                        gap_ms: r["gap_ms"].as_u64().unwrap_or(2),
                     },
                 );
             }
